@@ -256,6 +256,85 @@ pub fn ck_n_mut(len: usize, n: usize) {
     assert!(same(&env.rt.stack, &s) && same(&env.rt.under_stack, &u));
 }
 
+// ------------------------------------------------------------------ monadic_* / dyadic_* helpers (C02 leaves)
+fn ok1(v: Value, _e: &Uiua) -> UiuaResult<Value> {
+    Ok(Value(v.0 ^ 0x5555))
+}
+fn err1(_v: Value, e: &Uiua) -> UiuaResult<Value> {
+    Err(e.error(()))
+}
+fn ok1r(v: &Value, _e: &Uiua) -> UiuaResult<Value> {
+    Ok(Value(v.0 ^ 0x5555))
+}
+fn err1r(_v: &Value, e: &Uiua) -> UiuaResult<Value> {
+    Err(e.error(()))
+}
+fn pure1(v: &Value) -> Value {
+    Value(v.0 ^ 0x5555)
+}
+fn ok2(a: Value, b: Value, _e: &Uiua) -> UiuaResult<Value> {
+    Ok(Value(a.0 ^ (b.0 << 1)))
+}
+fn err2(_a: Value, _b: Value, e: &Uiua) -> UiuaResult<Value> {
+    Err(e.error(()))
+}
+fn ok2r(a: &Value, b: &Value, _e: &Uiua) -> UiuaResult<Value> {
+    Ok(Value(a.0 ^ (b.0 << 1)))
+}
+fn err2r(_a: &Value, _b: &Value, e: &Uiua) -> UiuaResult<Value> {
+    Err(e.error(()))
+}
+fn ok2ro(a: &Value, b: Value, _e: &Uiua) -> UiuaResult<Value> {
+    Ok(Value(a.0 ^ (b.0 << 1)))
+}
+fn err2ro(_a: &Value, _b: Value, e: &Uiua) -> UiuaResult<Value> {
+    Err(e.error(()))
+}
+fn pure2(a: &Value, b: &Value) -> Value {
+    Value(a.0 ^ (b.0 << 1))
+}
+/// which: 0 monadic_ref 1 monadic_env 2 monadic_ref_env 3 monadic_mut 4 monadic_mut_env
+///        5 dyadic_rr 6 dyadic_oo_env 7 dyadic_rr_env 8 dyadic_ro_env ; fail: the function fails
+pub fn ck_helper(len: usize, which: usize, fail: bool) {
+    let (mut env, s, u) = mk(len, 1);
+    let k = if which < 5 { 1 } else { 2 };
+    let r = match (which, fail) {
+        (0, _) => env.monadic_ref(pure1),
+        (1, false) => env.monadic_env(ok1),
+        (1, true) => env.monadic_env(err1),
+        (2, false) => env.monadic_ref_env(ok1r),
+        (2, true) => env.monadic_ref_env(err1r),
+        (3, _) => env.monadic_mut(|v| v.0 ^= 0x5555),
+        (4, false) => env.monadic_mut_env(|v, _e| {
+            v.0 ^= 0x5555;
+            Ok(())
+        }),
+        (4, true) => env.monadic_mut_env(|_v, e| Err(e.error(()))),
+        (5, _) => env.dyadic_rr(pure2),
+        (6, false) => env.dyadic_oo_env(ok2),
+        (6, true) => env.dyadic_oo_env(err2),
+        (7, false) => env.dyadic_rr_env(ok2r),
+        (7, true) => env.dyadic_rr_env(err2r),
+        (8, false) => env.dyadic_ro_env(ok2ro),
+        (_, _) => env.dyadic_ro_env(err2ro),
+    };
+    let can_fail = !(which == 0 || which == 3 || which == 5);
+    if len >= k && !(fail && can_fail) {
+        assert!(r.is_ok());
+        // consumed exactly k, produced exactly one value computed from them (first popped = top), nothing beneath touched
+        assert!(env.rt.stack.len() == len - k + 1);
+        assert!(same(&env.rt.stack[..len - k], &s[..len - k]));
+        let want = if k == 1 { Value(s[len - 1].0 ^ 0x5555) } else { Value(s[len - 1].0 ^ (s[len - 2].0 << 1)) };
+        assert!(env.rt.stack[len - k] == want);
+    } else {
+        assert!(r.is_err());
+        // on failure nothing beneath the arguments is touched
+        let keep = if len >= k { len - k } else { 0 };
+        assert!(env.rt.stack.len() >= keep && same(&env.rt.stack[..keep], &s[..keep]));
+    }
+    assert!(same(&env.rt.under_stack, &u));
+}
+
 // ------------------------------------------------------------------ context instructions (C04)
 pub fn ck_ctx_push_under(len: usize, ulen: usize, n: usize) {
     let (mut env, s, u) = mk(len, ulen);
